@@ -220,8 +220,9 @@ def decodePrefix : List Block → List Obj × Bool
 def showScan (hdr : String) (objs : List Obj) (ok : Bool) : String :=
   " ".intercalate ([hdr] ++ objs.map showObj ++ [if ok then "end=ok" else "end=err"])
 
-def handleC01 (toks : List String) : String :=
+partial def handleC01 (toks : List String) : String :=
   match toks with
+  | "par" :: _procs :: _tseed :: file => handleC01 ("scan" :: "0" :: file)
   | "scan" :: _procs :: file =>
     match parseFile file with
     | none => "bad-op"
